@@ -48,14 +48,23 @@ func aliasCheck(h *rt.H, c *codec) {
 	vl := lens[h.Choose("valLen", 0, h.Param("MAXLEN", 5))]
 	key, val := letters(h, "key", kl), letters(h, "val", vl)
 	doc1 := aliasDoc(h, c, key, val)
-	target := h.Choose("target", 0, 2)
+	_ = doc1
+	target := h.Choose("target", 0, 3)
 	var (
 		any1, any2 interface{}
 		m1, m2     map[string]string
 		s1, s2     aliasStruct
+		ms1, ms2   map[string][]string // element type handled by the reflection based map unfolder
 	)
-	t1 := []interface{}{&any1, &m1, &s1}[target]
-	t2 := []interface{}{&any2, &m2, &s2}[target]
+	t1 := []interface{}{&any1, &m1, &s1, &ms1}[target]
+	t2 := []interface{}{&any2, &m2, &s2, &ms2}[target]
+	if target == 3 {
+		// the value must be an array for this target: {"<key>": ["<val>"]}
+		h.Assume(c == jsonCodec)
+	}
+	if target == 3 {
+		doc1 = append(append(append(append([]byte(`{"`), key...), []byte(`":["`)...), val...), []byte(`"]}`)...)
+	}
 	u, err := gotype.NewUnfolder(t1)
 	h.Assert("unfolder-created", err == nil)
 	p := c.newParser(u)
@@ -83,6 +92,9 @@ func aliasCheck(h *rt.H, c *codec) {
 		val2[i] = 'Z'
 	}
 	doc2 := aliasDoc(h, c, key2, val2)
+	if target == 3 {
+		doc2 = append(append(append(append([]byte(`{"`), key2...), []byte(`":["`)...), val2...), []byte(`"]}`)...)
+	}
 	err = u.SetTarget(t2)
 	h.Assert("settarget", err == nil)
 	err = feed(doc2)
@@ -102,6 +114,13 @@ func aliasCheck(h *rt.H, c *codec) {
 	case 1:
 		gotVal, has = m1[string(key)]
 		has = has && len(m1) == 1
+	case 3:
+		var a []string
+		a, has = ms1[string(key)]
+		has = has && len(ms1) == 1 && len(a) == 1
+		if has {
+			gotVal = a[0]
+		}
 	case 2:
 		// the struct has a field named "k": only hit when the key is "k"
 		if kl == 1 {
